@@ -18,7 +18,7 @@ def _compute_static_error(
     if load_torque is not None:
         static_error = (
             (load_torque/maximum_torque)/powertrain_efficiency
-        )*braking_angle
+        )*AngularPosition(value=braking_angle.value, unit=braking_angle.unit)
     else:
         static_error = AngularPosition(0, 'rad')
 
